@@ -82,12 +82,12 @@ Proof.
       match from_octet b with SDec c => c =? b | _ => false end &&
       match quoted_from_octet b with SDec c => c =? b | _ => false end &&
       match display_from_octet b with SDec c => c =? b | _ => false end)) octets256 = true) by (vm_compute; reflexivity).
-  pose proof (forall_octets _ H b Hb) as H1. cbv beta in H1.
+  pose proof (forall_octets _ H b Hb) as H1. cbv beta in H1. clear H.
   apply orb_true_iff in H1 as [H1|H1]; [lia|].
   apply andb_true_iff in H1 as [H1 H4]. apply andb_true_iff in H1 as [H1 H3]. apply andb_true_iff in H1 as [H1 H2].
-  destruct (label_sym b); try discriminate. destruct (from_octet b); try discriminate.
-  destruct (quoted_from_octet b); try discriminate. destruct (display_from_octet b); try discriminate.
-  apply N.eqb_eq in H1, H2, H3, H4. subst. repeat split; reflexivity.
+  assert (S : forall s : sym, match s with SDec c => c =? b | _ => false end = true -> s = SDec b).
+  { intros [c|c|c] E; try discriminate E. apply N.eqb_eq in E. subst. reflexivity. }
+  repeat split; apply S; assumption.
 Qed.
 
 Lemma del_escaped : label_sym 127 = SDec 127 /\ from_octet 127 = SDec 127 /\
